@@ -47,8 +47,12 @@ def session_trace_events(trace):
     out = []
     for e in trace:
         point, _, f = e.partition(":")
-        if point == "mapr.registered":
+        if point == "mapr.register":
+            out.append({"ev": "regbegin", "f": int(f)})
+        elif point == "mapr.registered":
             out.append({"ev": "registered", "f": int(f)})
+        elif point == "agg.requeue":
+            out.append({"ev": "rqbegin", "f": 0})
         elif point in ("agg.closed", "agg.next", "agg.exit", "agg.swap", "agg.requeued"):
             out.append({"ev": point[4:], "f": 0})
     return out
@@ -153,6 +157,8 @@ def run(tier, replay):
         for n in ([300] if tier == "quick" else [300, 45, 1200]):
             cases.append({"id": 0, "nfiles": 1, "lines": [n], "limit": 2, "sched": [], "free": True, "interim": True, "model_counted": -1})
         cases.append({"id": 0, "nfiles": 130, "lines": [rng.choice([2, 3, 5]) for _ in range(130)], "limit": 130, "sched": [], "free": True, "model_counted": -1})
+        for c in cases:
+            c["nofinalnl"] = rng.random() < 0.4
         for i, c in enumerate(cases):
             c["id"] = i + 1
         cj, oj = os.path.join(wd, "cases.json"), os.path.join(wd, "out.json")
@@ -194,6 +200,9 @@ def run(tier, replay):
                     tv_acc += 1
                 elif good:
                     V.diverge("session case %d: result complete but the recorded trace is not a behaviour of MaprSchedTrace" % c["id"])
+                    if os.environ.get("VERIF_DEBUG"):
+                        import shutil
+                        shutil.copy(os.path.join(wd, "GMT%d.ndjson" % c["id"]), "/tmp/c06_rejected_%d.ndjson" % c["id"])
             log("trace validation: %d of %d session traces accepted by MaprSchedTrace (%d states)" % (tv_acc, tv_done, tv_states))
             # binding self-test: an accepted trace in which the exit decision is moved in front of a registration must be rejected
             for (c, res), (acc, _, _) in zip(tvjobs, tvres):
@@ -204,7 +213,7 @@ def run(tier, replay):
                     bad = [e for i, e in enumerate(evs) if i != exits[0]]
                     bad.insert(regs[-1], evs[exits[0]])
                     fake = dict(c, id=900000 + c["id"])
-                    acc2, _, _ = validate_session_trace(wd, fake, {"trace": ["agg." + e["ev"] + ":0" if e["ev"] != "registered" else "mapr.registered:%d" % e["f"] for e in bad]})
+                    acc2, _, _ = validate_session_trace(wd, fake, {"trace": [{"registered": "mapr.registered:%d" % e["f"], "regbegin": "mapr.register:%d" % e["f"], "rqbegin": "agg.requeue:0"}.get(e["ev"], "agg." + e["ev"] + ":0") for e in bad]})
                     if acc2:
                         raise vlib.Inconclusive("MaprSchedTrace accepts a trace whose exit decision precedes a registration: the trace spec does not bind")
                     binding_selftest = "corrupted trace (exit before the last registration) rejected"
